@@ -196,6 +196,44 @@ fn conversions(r: &mut Rng, c: &mut Counts) {
     let n264: Dual2Vec<DualDVec64, f64, Const<2>> = nested2.to_superset();
     let _ = Dual2Vec::<DualDVec32, f32, Const<2>>::from_superset(&n264).expect("nested checked narrowing failed");
     c.nested_heap += 2;
+    // the scalar types over heap-owning inner numbers, widening, narrowing and the identity
+    // conversion (same type on both sides): every result must own its own buffers
+    {
+        use num_dual::{Dual, Dual2};
+        let d32 = Dual::<DualDVec32, f32>::new(inner(r), inner(r));
+        let d64: Dual<DualDVec64, f64> = d32.to_superset();
+        let d64b: Dual<DualDVec64, f64> = d64.to_superset();
+        let d32b = Dual::<DualDVec32, f32>::from_superset(&d64b).expect("Dual over DualDVec: narrowing failed");
+        let d32c: Dual<DualDVec32, f32> = d32b.to_superset();
+        assert_eq!(d32c.re.re, d32.re.re);
+        assert_eq!(d64b.eps.re, d64.eps.re);
+        let e32 = Dual2::<DualDVec32, f32>::new(inner(r), inner(r), inner(r));
+        let e64: Dual2<DualDVec64, f64> = e32.to_superset();
+        let e64b: Dual2<DualDVec64, f64> = e64.to_superset();
+        let e64c: Dual2<DualDVec64, f64> = Dual2::<DualDVec64, f64>::from_superset_unchecked(&e64b);
+        let e32b = Dual2::<DualDVec32, f32>::from_superset(&e64c).expect("Dual2 over DualDVec: narrowing failed");
+        let e32c: Dual2<DualDVec32, f32> = e32b.to_superset();
+        assert_eq!(e32c.v2.re, e32.v2.re);
+        assert_eq!(e64b.v1.re, e64.v1.re);
+        drop(e64);
+        assert_eq!(e64b.v2.re as f32, e32.v2.re);
+        // identity conversions of the vector types
+        let idv: DualVec<DualDVec64, f64, Dyn> = nested64.to_superset();
+        assert_eq!(idv.re.re, nested64.re.re);
+        let id2: Dual2Vec<DualDVec64, f64, Const<2>> = n264.to_superset();
+        assert_eq!(id2.re.re, n264.re.re);
+        let idx: DualDVec64 = x64_identity(r);
+        let _ = idx;
+        c.nested_heap += 8;
+    }
+}
+
+fn x64_identity(r: &mut Rng) -> DualDVec64 {
+    let a = dvec64(r, 3, true);
+    let b: DualDVec64 = a.to_superset();
+    let c2: DualDVec64 = DualDVec64::from_superset(&b).expect("identity narrowing failed");
+    assert_eq!(c2.re, a.re);
+    c2
 }
 
 fn lanes(r: &mut Rng, c: &mut Counts) {
